@@ -54,9 +54,13 @@ TAMPERS = ['stream_name', 'key', 'suggested_file_name', 'blob_hash', 'blob_num',
            # structural inconsistencies with the stream hash RECOMPUTED over the altered content: numbering,
            # terminator and zero-length clauses must hold on their own, not only through the stale hash
            'renumber_rehash', 'renumber_terminator_rehash', 'terminator_hash_rehash', 'terminator_length_rehash',
-           'drop_terminator_rehash', 'zero_length_blob_rehash', 'swap_rehash', 'dup_blob_rehash']
+           'drop_terminator_rehash', 'zero_length_blob_rehash', 'swap_rehash', 'dup_blob_rehash',
+           # the stream hash covers blob_hash + str(num) + iv + str(length) WITHOUT separators: tamperings that move
+           # characters across a field boundary, or change a type whose str() is the same, keep the hash valid
+           'shift_length_into_iv', 'shift_iv_into_length', 'length_as_string', 'num_as_string',
+           'shift_length_into_iv', 'length_as_string']
 NAME_ALPHABET = ['a', 'B', '7', ' ', '.', '..', '\\', ':', '*', '?', '"', '<', '>', '|', '\x01', '\x1f', '\t', '\n', 'é', '漢', '🙂',
-                 'CON', 'NUL', 'COM1', 'LPT9', '.txt', '.mp4', '-', '_', '%', '\x7f', '́']
+                 'CON', 'NUL', 'COM1', 'LPT9', '.txt', '.mp4', '-', '_', '%', '\x7f', '́', '\x80', '\x85', '\x9b', '\x9f']
 
 
 def gen(run_seed, tier):
@@ -79,6 +83,19 @@ def gen(run_seed, tier):
             'via_network': r.random() < (0.8 if not big else 0.5),
             'ops': [{'op': 'tamper', 'what': r.choice(TAMPERS), 'idx': r.random(), 'seed': r.getrandbits(16)}
                     for _ in range(r.choice([0, 1, 2, 4]))]}
+
+
+_gen_base = gen
+
+
+def gen(run_seed, tier):   # noqa: F811
+    sc = _gen_base(run_seed, tier)
+    # "all keys / IV sequences": an IV sequence that repeats, over a file whose chunks repeat too, yields the same
+    # (key, iv, chunk) twice - the second blob is byte-identical to the first and already there (own stream)
+    r2 = stream('C02.gen.iv_repeat', run_seed)
+    if r2.random() < 0.015:
+        sc.update(size=2 * (MAX_BLOB - 1) + r2.choice([0, 0, 5]), own_key=True, iv_repeat=True, via_network=False, ops=[])
+    return sc
 
 
 def shrink(sc):
@@ -105,7 +122,10 @@ def fs_name(name):
 
 
 def bad_saving_name(n):
-    return any(c in n for c in '/\\\x00') or any(ord(c) < 0x20 for c in n)
+    # control character = Unicode category Cc: U+0000-001F, DEL and the C1 range U+0080-009F (U+009B is CSI, the one
+    # character form of ESC [ that terminals honour)
+    import unicodedata
+    return any(c in n for c in '/\\\x00') or any(unicodedata.category(c) == 'Cc' for c in n)
 
 
 def ref_stream_hash(d):
@@ -203,6 +223,25 @@ def tamper(d, op, r):
             d['stream_hash'] = ref_stream_hash(d)
         except Exception:  # noqa
             return None
+    elif what == 'shift_length_into_iv':
+        ln = str(data[i]['length'])
+        if len(ln) < 2:
+            return None
+        k = r.randint(1, len(ln) - 1)
+        if ln[k] == '0':
+            return None                         # the remainder must still print as itself
+        data[i]['iv'] = data[i]['iv'] + ln[:k]
+        data[i]['length'] = int(ln[k:])
+    elif what == 'shift_iv_into_length':
+        iv = data[i]['iv']
+        if iv[-1] not in '123456789':
+            return None
+        data[i]['iv'] = iv[:-1]
+        data[i]['length'] = int(iv[-1] + str(data[i]['length']))
+    elif what == 'length_as_string':
+        data[i]['length'] = str(data[i]['length'])
+    elif what == 'num_as_string':
+        data[i]['blob_num'] = str(data[i]['blob_num'])
     elif what in ('stream_hash_blank', 'stream_hash_blank_plus'):
         # a stream hash that is not a hash at all (empty / null / falsy / wrong type) is inconsistent too,
         # alone or together with one altered committed field
@@ -271,6 +310,9 @@ def execute(scenario, keep_trace=False):
     dirs = []
     nodes = []
     content = _random.Random(f"c02:{scenario['content_seed']}").randbytes(scenario['size'])
+    if scenario.get('iv_repeat'):
+        content = (content[:MAX_BLOB - 1] * 3)[:scenario['size']]
+        run.probes['iv_repeat_identical_chunks'] += 1
     judged = [0]
 
     async def make_node(name):
@@ -323,8 +365,9 @@ def execute(scenario, keep_trace=False):
             kwargs['key'] = kr.randbytes(16)
 
             def ivs():
+                fixed = kr.randbytes(16)
                 while True:
-                    yield kr.randbytes(16)
+                    yield fixed if scenario.get('iv_repeat') else kr.randbytes(16)
             kwargs['iv_generator'] = ivs()
             run.probes['own_key_iv'] += 1
         else:
@@ -389,7 +432,7 @@ def execute(scenario, keep_trace=False):
             run.violation('C02.roundtrip', f'independent decryption of the published blobs gives {len(plain)} bytes != the '
                           f'{len(content)} byte file', where='local')
             return
-        if len(ivs_seen) != len(data_blobs):
+        if len(ivs_seen) != len(data_blobs) and not scenario.get('iv_repeat'):   # (a repeating sequence the harness supplied itself)
             run.violation('C02.iv_reuse', 'two data blobs of one stream share an IV')
             return
         run.probes['roundtrip_local'] += 1
